@@ -57,8 +57,11 @@ def register(lib):
         dt = canon_dtype(dtype)
         if dt in NP.FLOAT_DTYPES:
             z = STok(F32_ZERO)
-            return SArray(shape, lambda idx: z, dt)
-        return SArray(shape, lambda idx: 0, dt)
+            r = SArray(shape, lambda idx: z, dt)
+        else:
+            r = SArray(shape, lambda idx: 0, dt)
+        r.fresh_zeros = True          # ghost: freshly allocated, all zero, no alias
+        return r
     E['numpy.zeros'] = np_zeros
 
     def np_arange(I, *a, dtype=None):
